@@ -17,3 +17,46 @@ def run(ctx):
     P.C09_grammar_gaps(ctx, "C09.R5", G)
     from rules import symprint
     symprint.comment_order(ctx, "C09.R4", core, G)
+    # ---- R6 a comment is the rest of the physical line
+    ctx.rule("C09.R6", "every comment rule consumes the text up to the physical end of the line: its stop look-ahead cannot itself start with `//` (a stop rule that includes an inline comment cuts a comment in two at a second `//`, e.g. a URL)", floor=3)
+    for r in ("comment", "eol_comment", "inline_comment"):
+        if r not in G.rules:
+            continue
+        negs = [e["e"] for e in G.walk(G.expr(r)) if e["k"] == "neg"]
+        if not negs:
+            ctx.inst("C09.R6", "rule=%s" % r, None, "no stop look-ahead found in %s" % r, "blots-core/src/grammar.pest")
+            continue
+        bad = []
+        for ng in negs:
+            try:
+                fc = G.first_chars(ng)
+            except Exception:
+                fc = set()
+            if "/" in fc:
+                bad.append(ng.get("v") or ng["k"])
+        ctx.inst("C09.R6", "rule=%s" % r, not bad, "stops at %s%s" % ([ng.get("v") or ng["k"] for ng in negs], "" if not bad else ": %s can start with `/`, i.e. with a comment of its own" % bad), "blots-core/src/grammar.pest")
+    # ---- R3 (cont.) the builder hands its comment flag to every recursive call
+    ctx.rule("C09.R3b", "inside the comment-preserving AST builder every recursive descent passes the `preserve_comments` flag on: no call of the non-preserving entry point and no constant flag", floor=5)
+    from lib import hir as H
+    bname = "blots_core::expressions::pairs_to_expr_inner"
+    b = core.hir_fn(bname)
+    flag = H.param_by_type(b, "bool")
+    k = 0
+    for fn_name in (bname, "blots_core::expressions::parse_record_entry"):
+        if fn_name not in core.hir:
+            continue
+        f = core.hir_fn(fn_name)
+        fl = H.param_by_type(f, "bool")
+        for n in H.walk(f["body"]):
+            if H.kind(n) != "Call":
+                continue
+            d = n.get("def") or ""
+            if d in (bname, "blots_core::expressions::parse_record_entry"):
+                a = n["args"][1] if len(n["args"]) > 1 else None
+                # the flag travels as a bool variable (the builder's parameter, or a helper's parameter bound to it); a literal fixes it
+                ok = a is not None and H.path_local(a) is not None and H.lit(a) is None
+                ctx.inst("C09.R3b", "%s->%s[%d]" % (H.last(fn_name), H.last(d), k), ok, "comment flag argument: %s" % ("the builder's own flag" if ok else (H.kind(H.strip(a)) if a is not None else "missing")), H.loc(n))
+                k += 1
+            elif d in ("blots_core::expressions::pairs_to_expr", "blots_core::expressions::pairs_to_expr_with_comments"):
+                ctx.inst("C09.R3b", "%s->%s[%d]" % (H.last(fn_name), H.last(d), k), False, "the builder re-enters through %s, which fixes the comment flag: comments below this point are kept or dropped regardless of the caller's choice" % H.last(d), H.loc(n))
+                k += 1
